@@ -391,7 +391,39 @@ func ruleK1(p *Prog, r *Report) {
 			var getCall *ssa.Call
 			knf := controlDependsOnValue(top, b, func(v ssa.Value) bool {
 				cc, ok := v.(*ssa.Call)
-				if !ok || cc.Call.StaticCallee() == nil || cc.Call.StaticCallee().String() != "errors.As" {
+				if !ok || cc.Call.StaticCallee() == nil {
+					return false
+				}
+				if cc.Call.StaticCallee().String() != "errors.As" {
+					// a private predicate that is errors.As(err, *KeyNotFoundError) inside
+					g := cc.Call.StaticCallee()
+					if g.Pkg == nil || g.Pkg.Pkg.Path() != rootPkgPath || len(g.Params) != 1 || len(cc.Call.Args) != 1 || len(g.Blocks) == 0 {
+						return false
+					}
+					okAll := len(returnsOf(g)) > 0
+					for _, ret := range returnsOf(g) {
+						ic, ok := canon(ret.Results[0]).(*ssa.Call)
+						if !ok || ic.Call.StaticCallee() == nil || ic.Call.StaticCallee().String() != "errors.As" || canon(ic.Call.Args[0]) != ssa.Value(g.Params[0]) {
+							okAll = false
+							continue
+						}
+						t := ic.Call.Args[1]
+						if mi, ok := t.(*ssa.MakeInterface); ok {
+							t = mi.X
+						}
+						if typeName(t.Type()) != "KeyNotFoundError" {
+							okAll = false
+						}
+					}
+					if !okAll {
+						return false
+					}
+					if ex, ok := canon(cc.Call.Args[0]).(*ssa.Extract); ok {
+						if g2, ok := ex.Tuple.(*ssa.Call); ok && calleeName(g2) == "Get" {
+							getCall = g2
+							return true
+						}
+					}
 					return false
 				}
 				t := cc.Call.Args[1]
